@@ -887,7 +887,23 @@ func enableCustomInputFormat() {
 		panic(err)
 	}
 	customInputRe = regexp.MustCompile(customInputFormat)
+	// two registrations the library refuses (what a second application in the process, or a
+	// typing mistake, produces): a format it returned an error for is not an accepted format,
+	// and refusing it leaves the registry usable
+	refusedRegistrations = nil
+	if err := vm.RegisterInputValidator(0, refusedInputFormat); err == nil {
+		refusedRegistrations = append(refusedRegistrations, "a second format under a used key was registered without error")
+	}
+	if err := vm.RegisterInputValidator(1, `^![a-z+$`); err == nil {
+		refusedRegistrations = append(refusedRegistrations, "a malformed expression was registered without error")
+	}
 }
+
+// refusedInputFormat: registered under the key the first format already has; the library
+// refuses the registration, so inputs of this shape stay refused
+const refusedInputFormat = `^![a-z]+$`
+
+var refusedRegistrations []string
 
 var junkInputs = []string{"x", "zz", "99", "+1", "1 2", "0000", "hello world", "7*", "11", "22", "0x", "1\x00", "9\xff",
 	"50%", "a%20b", "5%d", "1%s", "9%!", "1%v%v", "a{{.x}}", "0{{", "1\t2", "a\"b", "a'b", "a\\n", "1$", "2^", "0|1", "a(b", "1[0", "x.y", "0?"}
